@@ -5,6 +5,7 @@
 //   slice A0 A1 ...                 A = i:E | r:E,E | s:E,E,S | _     E = k | eK  (eK is `end - K`)
 //   subset E E ...  | idx E | T | permute p.. | diag k | subdiag b e | reshape d.. | softlink
 //   contig                          is_contiguous()
+//   ix S0 S1 ...                    integer-vector indexing of the current view (state unchanged): drv_views_idx.h
 // Answer to a view-forming op: rank, extents, offset(i), data()-parent.data(), all elements in index
 // order (read through operator()(int...)), then -(j+1) is written through element j and every cell of
 // the parent allocation that no longer holds its own number is listed (and restored).
@@ -15,7 +16,7 @@
 // RangeIndex<B,E,int> with B,E in {int, end-k}, AllIndex); ranks 3-5 use per call either the int
 // family or the end-k family (an int k is then passed as end-(len-1-k)).
 // Compile time: the work is split over drv_views.cpp (main, ranks 0-3), drv_views_r4.cpp,
-// drv_views_r5.cpp, drv_views_r5i.cpp, drv_views_r5e.cpp, built in parallel by vbuild.
+// drv_views_r5.cpp, drv_views_r5i.cpp, drv_views_r5e.cpp, drv_views_idx*.cpp (IndexedArray), built in parallel by vbuild.
 #include "drv_views.h"
 
 int* g_pdata = 0;
@@ -35,6 +36,7 @@ struct V0 : VBase {
   }
   VBase* apply(const std::vector<std::string>&) { throw BadOp(); }
   int contig() { throw BadOp(); }
+  std::string indexed(const std::vector<std::string>&) { throw BadOp(); }
 };
 
 VBase* wrap(int& r) { return new V0(r); }
@@ -89,6 +91,10 @@ int main() {
       if (w[0] == "contig" && w.size() == 1) {
         int c = cur->contig();
         std::cout << "contig=" << c << "\n";
+        continue;
+      }
+      if (w[0] == "ix") {
+        std::cout << cur->indexed(w) << "\n";
         continue;
       }
       VBase* nv = cur->apply(w);
